@@ -2,6 +2,7 @@ package mvp8_0
 
 import (
 	"fmt"
+	"sync"
 
 	co "github.com/teivah/majorana/common/coroutine"
 	"github.com/teivah/majorana/common/latency"
@@ -47,6 +48,8 @@ type cacheController struct {
 	msi         *msi
 	l1RLockSems map[comp.AlignedAddress]*comp.Sem
 	l1LockSems  map[comp.AlignedAddress]*comp.Sem
+	// l3Lock is the L3 line lock held by the read in progress, if any
+	l3Lock *sync.Mutex
 
 	// Transient
 	post func()
@@ -255,9 +258,12 @@ func (cc *cacheController) coRead(r ccReadReq) ccReadResp {
 								if !mu.TryLock() {
 									return ccReadResp{}
 								}
+								// The lock is held during the L3 access: a flush has to release it
+								cc.l3Lock = mu
 
 								return cc.read.ExecuteWithCheckpointAfter(r, latency.L3Access, func(r ccReadReq) ccReadResp {
 									shouldEvict := cc.pushLineToL3(l3Addr, l3Data)
+									cc.l3Lock = nil
 									mu.Unlock()
 									if shouldEvict != nil {
 										pending := cc.msi.evictL3ExtraCacheLine(cc.id, shouldEvict.Boundary[0])
@@ -483,6 +489,10 @@ func (cc *cacheController) writeToL3(l1Addr comp.AlignedAddress, data []int8) {
 func (cc *cacheController) flush() {
 	cc.read.Reset()
 	cc.write.Reset()
+	if cc.l3Lock != nil {
+		cc.l3Lock.Unlock()
+		cc.l3Lock = nil
+	}
 	for k, sem := range cc.l1RLockSems {
 		sem.RUnlock()
 		delete(cc.l1RLockSems, k)
